@@ -18,3 +18,19 @@ def run(rep, tier, seed, args):
                        'z3 (python wheel 5.1.0) trusted']
     res = common.run_jobs(jobs)
     rep.add_jobs(res)
+    if tier == 'thorough':
+        # independent second engine on the O1/O3 obligations (DESIGN.md C08): CrossHair, one process per shape pair
+        from vk.xcheck import crosshair_c08
+        xr = crosshair_c08.run(maxlen=3, timeout=30)
+        verdicts = {}
+        for name, verdict, out, secs in xr:
+            verdicts.setdefault(verdict, []).append(name)
+        rep.side['crosshair'] = {k: len(v) for k, v in verdicts.items()}
+        rep.side['crosshair_inconclusive'] = sorted(verdicts.get('inconclusive', []))
+        rep.notes.append('CrossHair 0.0.110 re-decides O1/O3 per shape pair (<= 3 tiers): "Confirmed over all paths" on the equal-cutoff pairs; '
+                         'the mixed-cutoff pairs stay inconclusive because the f-string of the incomparable-assertion message makes CrossHair realise '
+                         'the symbolic tiers (deep_realize in its format intercept); inconclusive is reported, not counted as agreement')
+        own_viol = any(v['rule'].startswith('C08.O') and not v['rule'].endswith('/mixed-equal') for r in res if not r['error'] for v in r['violations'])
+        if verdicts.get('counterexample') and not own_viol:
+            rep.harness_error(f"engines disagree: CrossHair reports a counterexample for {verdicts['counterexample']} where vk.engine found none: "
+                              + '; '.join(o for n, v, o, s in xr if v == 'counterexample')[:600])
